@@ -35,6 +35,8 @@ structure World (U V : Type) where
   listOf  : List V → V
   noneV   : V
   runner  : V
+  /-- the truth test (`__bool__` / `__len__`): may run user code -/
+  truthy  : V → U → Option (Bool × U)
 
 abbrev T (V : Type) := List (String × V)
 
@@ -52,6 +54,8 @@ def isGlue' : Expr → Bool
   | .list _ => true
   | .attribute _ _ => true
   | .subscript _ _ => true
+  | .ifExp _ _ _ => true
+  | .boolOp _ [_, _] => true
   | .call (.name "setattr") [_, .const (.str _), _] [] => true
   | .call (.attribute _ "__setitem__") [_, _] [] => true
   | .call (.attribute (.call (.name "__import__") [.const (.str _)] []) _) [_, _] [] => true
@@ -86,6 +90,20 @@ mutual
     | iop (a : Expr) (op : BinOpK) (b : Expr) {u u1 u2 u3 : U} {t t1 t2 : T V} {av bv r : V} :
         Ev W a u t av u1 t1 → Ev W b u1 t1 bv u2 t2 → W.iop op av bv u2 = some (r, u3) →
         Ev W (augAssignExpr a op b) u t r u3 t2
+    | ifT (c a b : Expr) {u u1 u2 u3 : U} {t t1 t2 : T V} {cv v : V} :
+        Ev W c u t cv u1 t1 → W.truthy cv u1 = some (true, u2) → Ev W a u2 t1 v u3 t2 → Ev W (.ifExp c a b) u t v u3 t2
+    | ifF (c a b : Expr) {u u1 u2 u3 : U} {t t1 t2 : T V} {cv v : V} :
+        Ev W c u t cv u1 t1 → W.truthy cv u1 = some (false, u2) → Ev W b u2 t1 v u3 t2 → Ev W (.ifExp c a b) u t v u3 t2
+    | andF (a b : Expr) {u u1 u2 : U} {t t1 : T V} {av : V} :
+        Ev W a u t av u1 t1 → W.truthy av u1 = some (false, u2) → Ev W (.boolOp .and_ [a, b]) u t av u2 t1
+    | andT (a b : Expr) {u u1 u2 u3 : U} {t t1 t2 : T V} {av bv : V} :
+        Ev W a u t av u1 t1 → W.truthy av u1 = some (true, u2) → Ev W b u2 t1 bv u3 t2 →
+        Ev W (.boolOp .and_ [a, b]) u t bv u3 t2
+    | orT (a b : Expr) {u u1 u2 : U} {t t1 : T V} {av : V} :
+        Ev W a u t av u1 t1 → W.truthy av u1 = some (true, u2) → Ev W (.boolOp .or_ [a, b]) u t av u2 t1
+    | orF (a b : Expr) {u u1 u2 u3 : U} {t t1 t2 : T V} {av bv : V} :
+        Ev W a u t av u1 t1 → W.truthy av u1 = some (false, u2) → Ev W b u2 t1 bv u3 t2 →
+        Ev W (.boolOp .or_ [a, b]) u t bv u3 t2
     | runner (u : U) (t : T V) : Ev W chainRunner u t W.runner u t
     | chain (f a : Expr) {u u1 u2 : U} {t t1 t2 : T V} {v : V} :
         isChain (.call f [a] []) = true → Ev W f u t W.runner u1 t1 → Ev W a u1 t1 v u2 t2 →
@@ -106,6 +124,8 @@ inductive Clean : Expr → Prop
   | attr (o : Expr) (a : String) : Clean o → Clean (.attribute o a)
   | sub (o i : Expr) : Clean o → Clean i → Clean (.subscript o i)
   | call (f : Expr) (as : List Expr) (ks : List Keyword) : Clean f → (∀ a ∈ as, Clean a) → Clean (.call f as ks)
+  | ifExp (c a b : Expr) : Clean c → Clean a → Clean b → Clean (.ifExp c a b)
+  | boolOp2 (op : BoolOpK) (a b : Expr) : Clean a → Clean b → Clean (.boolOp op [a, b])
   | other (e : Expr) : isGlue e = false → Clean e
 
 /-! ### source statements (module level, straight line) -/
@@ -123,30 +143,48 @@ inductive AssignAll (W : World U V) : List Expr → V → U → U → Prop
   | cons {t : Expr} {ts : List Expr} {v : V} {u u1 u2 : U} :
       AssignT W t v u u1 → AssignAll W ts v u1 u2 → AssignAll W (t :: ts) v u u2
 
-/-- simple statements: the value first, then the targets left to right; augmented assignment loads
-    the target (its object and index once), evaluates the operand, applies the in-place operator,
-    stores (language reference 7.2, 7.2.1) -/
-inductive ExecS (W : World U V) : Stmt → U → U → Prop
-  | expr (e : Expr) {v : V} {u u' : U} : Ev W e u [] v u' [] → ExecS W (.expr e) u u'
-  | pass (u : U) : ExecS W .pass_ u u
-  | global_ (ns : List String) (u : U) : ExecS W (.global_ ns) u u
-  | assign (ts : List Expr) (value : Expr) {v : V} {u u1 u2 : U} :
-      Ev W value u [] v u1 [] → AssignAll W ts v u1 u2 → ExecS W (.assign ts value) u u2
-  | augName (x : String) (op : BinOpK) (value : Expr) {a b r : V} {u u1 u2 u3 : U} :
-      ¬ isTemp x → Ev W (.name x) u [] a u1 [] → Ev W value u1 [] b u2 [] → W.iop op a b u2 = some (r, u3) →
-      ExecS W (.augAssign (.name x) op value) u (W.store x r u3)
-  | augAttr (o : Expr) (a : String) (op : BinOpK) (value : Expr) {ov cur b r : V} {u u1 u2 u3 u4 u5 : U} :
-      Ev W o u [] ov u1 [] → W.getattr ov a u1 = some (cur, u2) → Ev W value u2 [] b u3 [] →
-      W.iop op cur b u3 = some (r, u4) → W.setattr ov a r u4 = some u5 →
-      ExecS W (.augAssign (.attribute o a) op value) u u5
-  | augSub (o i : Expr) (op : BinOpK) (value : Expr) {ov iv cur b r : V} {u u1 u2 u3 u4 u5 u6 : U} :
-      Ev W o u [] ov u1 [] → Ev W i u1 [] iv u2 [] → W.getitem ov iv u2 = some (cur, u3) → Ev W value u3 [] b u4 [] →
-      W.iop op cur b u4 = some (r, u5) → W.setitem ov iv r u5 = some u6 →
-      ExecS W (.augAssign (.subscript o i) op value) u u6
+/-- what the glue relies on: a non-empty list is true, and taking the truth value of an object again,
+    right away, gives the same answer and changes nothing.  (Where an `if` statement tests `a and b`,
+    CPython tests the deciding operand once; an expression that yields the chain's value and is then
+    tested tests that operand again - and on 3.12+ `c and X or Y` tests a false `c` twice.  A world
+    in which that is visible is outside this law; the converter's `short_circuit` style really
+    deviates there: KF-D61b.) -/
+structure Lawful (W : World U V) : Prop where
+  list : ∀ (v : V) (vs : List V) (u : U), W.truthy (W.listOf (v :: vs)) u = some (true, u)
+  retest : ∀ (v : V) (u u' : U) (b : Bool), W.truthy v u = some (b, u') → W.truthy v u' = some (b, u')
 
-inductive ExecB (W : World U V) : List Stmt → U → U → Prop
-  | nil (u : U) : ExecB W [] u u
-  | cons {s : Stmt} {ss : List Stmt} {u u1 u2 : U} : ExecS W s u u1 → ExecB W ss u1 u2 → ExecB W (s :: ss) u u2
+mutual
+  /-- simple statements: the value first, then the targets left to right; augmented assignment loads
+      the target (its object and index once), evaluates the operand, applies the in-place operator,
+      stores (language reference 7.2, 7.2.1); `if`: the test, its truth value once, one branch (8.1) -/
+  inductive ExecS (W : World U V) : Stmt → U → U → Prop
+    | expr (e : Expr) {v : V} {u u' : U} : Ev W e u [] v u' [] → ExecS W (.expr e) u u'
+    | pass (u : U) : ExecS W .pass_ u u
+    | global_ (ns : List String) (u : U) : ExecS W (.global_ ns) u u
+    | assign (ts : List Expr) (value : Expr) {v : V} {u u1 u2 : U} :
+        Ev W value u [] v u1 [] → AssignAll W ts v u1 u2 → ExecS W (.assign ts value) u u2
+    | augName (x : String) (op : BinOpK) (value : Expr) {a b r : V} {u u1 u2 u3 : U} :
+        ¬ isTemp x → Ev W (.name x) u [] a u1 [] → Ev W value u1 [] b u2 [] → W.iop op a b u2 = some (r, u3) →
+        ExecS W (.augAssign (.name x) op value) u (W.store x r u3)
+    | augAttr (o : Expr) (a : String) (op : BinOpK) (value : Expr) {ov cur b r : V} {u u1 u2 u3 u4 u5 : U} :
+        Ev W o u [] ov u1 [] → W.getattr ov a u1 = some (cur, u2) → Ev W value u2 [] b u3 [] →
+        W.iop op cur b u3 = some (r, u4) → W.setattr ov a r u4 = some u5 →
+        ExecS W (.augAssign (.attribute o a) op value) u u5
+    | augSub (o i : Expr) (op : BinOpK) (value : Expr) {ov iv cur b r : V} {u u1 u2 u3 u4 u5 u6 : U} :
+        Ev W o u [] ov u1 [] → Ev W i u1 [] iv u2 [] → W.getitem ov iv u2 = some (cur, u3) → Ev W value u3 [] b u4 [] →
+        W.iop op cur b u4 = some (r, u5) → W.setitem ov iv r u5 = some u6 →
+        ExecS W (.augAssign (.subscript o i) op value) u u6
+    | ifTrue (test : Expr) (body orelse : List Stmt) {tv : V} {u u1 u2 u3 : U} :
+        Ev W test u [] tv u1 [] → W.truthy tv u1 = some (true, u2) → ExecB W body u2 u3 →
+        ExecS W (.if_ test body orelse) u u3
+    | ifFalse (test : Expr) (body orelse : List Stmt) {tv : V} {u u1 u2 u3 : U} :
+        Ev W test u [] tv u1 [] → W.truthy tv u1 = some (false, u2) → ExecB W orelse u2 u3 →
+        ExecS W (.if_ test body orelse) u u3
+
+  inductive ExecB (W : World U V) : List Stmt → U → U → Prop
+    | nil (u : U) : ExecB W [] u u
+    | cons {s : Stmt} {ss : List Stmt} {u u1 u2 : U} : ExecS W s u u1 → ExecB W ss u1 u2 → ExecB W (s :: ss) u u2
+end
 
 /-- a plain index: not a slice and not a tuple (those are rewritten by `convert_index`) -/
 def plainIndex : Expr → Prop
@@ -161,13 +199,15 @@ inductive SimpleT : Expr → Prop
   | sub (o i : Expr) : Clean o → Clean i → plainIndex i → SimpleT (.subscript o i)
 
 /-- the statements of the fragment: expression statements, `pass`, `global`, assignments with any
-    number of name / attribute / subscript targets, augmented assignments on the same targets; all
-    their expressions free of helper names -/
+    number of name / attribute / subscript targets, augmented assignments on the same targets,
+    `if` / `elif` / `else` over such statements at any nesting; all their expressions free of helper names -/
 inductive SimpleS : Stmt → Prop
   | expr (e : Expr) : Clean e → SimpleS (.expr e)
   | pass : SimpleS .pass_
   | global_ (ns : List String) : SimpleS (.global_ ns)
   | assign (ts : List Expr) (value : Expr) : ts ≠ [] → (∀ t ∈ ts, SimpleT t) → Clean value → SimpleS (.assign ts value)
   | aug (t : Expr) (op : BinOpK) (value : Expr) : SimpleT t → Clean value → SimpleS (.augAssign t op value)
+  | if_ (test : Expr) (body orelse : List Stmt) : Clean test → (∀ s ∈ body, SimpleS s) → (∀ s ∈ orelse, SimpleS s) →
+      SimpleS (.if_ test body orelse)
 
 end OlVerif.Sem
